@@ -25,8 +25,9 @@ PROP = dict(
     race=True,
     trace=dict(module="TraceClientResp", cfg="TraceClientResp.cfg"),
     rule="case = one Submit with (registry subset of 5 types, catch-all yes/no, default type, Content-Type form x type, status, "
-         "operation/transport client and context) - exhaustive over registry x catch-all x default x header and over the client/"
-         "context lattice, plus seeded random - or one concurrent run: N callers on a fresh Runtime under a TLC-exported gate "
+         "operation/transport client, operation context in {nil, Background itself, TODO, derived with value, derived cancelled} x "
+         "runtime context in {nil, default, value, cancelled, short deadline}) - exhaustive over registry x catch-all x default x "
+         "header and over the client/context lattice, plus seeded random - or one concurrent run: N callers on a fresh Runtime under a TLC-exported gate "
          "schedule (all 1700 interleavings of 3 gates for N=2,3), a barrier inside the params writers or inside RoundTrip, or free "
          "running (N in {2,8,64}, GOMAXPROCS in {1,2,4,16}). Non-trivial: header not plain or no operation client / any concurrent "
          "case; distinct by hash of the case.",
